@@ -31,7 +31,7 @@ func init() {
 	Register(&PropDef{
 		ID:    "C12",
 		Title: "A pooled message has one owner at a time",
-		Rule: "the workloads of C03 (requests), C04 (block-wise between two real endpoints, with and without faults), C05 (de-duplication), C06 (retransmission), C08 (observe) and C11 (nested handlers) run with a message pool of capacity 1, 2 or 1024 and the life-cycle tracker armed: release hook (before the capacity test), poison on put, poison check on acquire, application holds (response from return until release two phases later, request inside its handler, notification inside its callback); " +
+		Rule: "the workloads of C03 (requests), C04 (block-wise between two real endpoints, with and without faults), C05 (de-duplication), C06 (retransmission), C08 (observe) and C11 (nested handlers) run with a message pool of capacity 1, 2 or 1024 and the life-cycle tracker armed: release hook (before the capacity test), poison on put, poison check on acquire, application holds (response from return until release two phases later, request inside its handler, notification inside its callback); POOL/middleware: the application wraps the handler chain (WithProcessReceivedMessageFunc) with post-processing that the simulator parks, and releases responses the moment it gets them; " +
 			"non-trivial = at least one released object was handed out again during the run; distinct = distinct event-log hash",
 		Scenarios: []Scenario{
 			host("C03", c03Run),
@@ -44,6 +44,7 @@ func init() {
 			host("C08", c08Run),
 			host("C11", c11Run),
 			host("C13/scripted", c13Run),
+			host("middleware", c12Middleware),
 		},
 		Quick:    60000,
 		Thorough: 3000000,
